@@ -256,3 +256,79 @@ func parseToTree(name, src string) ([]*rt.Node, error) {
 	}
 	return drv.FromAst(stmts)
 }
+
+// dctx parameterises generators shared between the v1 checks and C18 (v2).
+type dctx struct {
+	id   string
+	diff func(*Prog) Verdict
+	v2   bool
+}
+
+// DifferentialV2 runs a single-script program on the real v2 interpreter and
+// on the reference in its v2 dialect; compares probe trace and error flag.
+func DifferentialV2(p *Prog) Verdict {
+	src := p.Sources()[p.Main]
+	sc, err := drv.LoadV2(p.Main, src)
+	if err != nil {
+		return Verdict{Key: "unexpected-load-error", LoadErr: err.Error(), What: fmt.Sprintf("script rejected at load time: %v\n%s", err, src), Outcome: "loaderr"}
+	}
+	sig := &drv.Sig{FireAt: realPollCap}
+	res := drv.RunV2(sc, sig)
+	v := Verdict{Real: res}
+	if res.Panic != "" {
+		v.Key, v.What, v.Outcome = "panic", fmt.Sprintf("run panicked: %s\n%s", res.Panic, src), "panic"
+		return v
+	}
+	canceled := sig.N >= realPollCap
+	realOut := strings.Join(res.Trace, ";") + "|" + fmt.Sprint(res.Err != nil)
+	v.Outcome = realOut
+	var firstW *ref.World
+	var firstErr *ref.RErr
+	for bits := uint(0); ; bits++ {
+		w := ref.NewWorld()
+		w.V2 = true
+		w.MaxSteps = refStepCap
+		ref.V2Builtins(w)
+		w.Scripts[p.Main] = p.Scripts[p.Main]
+		ch := &mapOrderChooser{bits: bits, w: w}
+		w.MapOrder = ch.order
+		rerr := w.RunScript(p.Main, nil)
+		if bits == 0 {
+			firstW, firstErr = w, rerr
+		}
+		if w.Unspec != "" {
+			v.Skipped, v.OK = w.Unspec, true
+			return v
+		}
+		if canceled || w.OutOfGas {
+			if isPrefix(res.Trace, w.Trace) {
+				v.OK = true
+				v.Outcome = "prefix:" + strings.Join(res.Trace, ";")
+				return v
+			}
+		} else if strings.Join(w.Trace, ";")+"|"+fmt.Sprint(rerr != nil) == realOut {
+			v.OK, v.RefErr = true, rerr
+			return v
+		}
+		if ch.used == 0 || ch.used > 6 || bits+1 >= 1<<uint(ch.used) {
+			break
+		}
+	}
+	v.RefTrace, v.RefErr = firstW.Trace, firstErr
+	switch {
+	case (res.Err != nil) != (firstErr != nil) && !canceled && !firstW.OutOfGas:
+		if res.Err != nil {
+			v.Key = "error-where-reference-yields-value"
+		} else {
+			v.Key = "value-where-reference-errors"
+		}
+	default:
+		v.Key = "trace-differs"
+	}
+	refErrS := "<nil>"
+	if firstErr != nil {
+		refErrS = firstErr.Msg
+	}
+	v.What = fmt.Sprintf("program (v2):\n%s\nreal : trace=%v err=%v\nref  : trace=%v err=%s", src, res.Trace, res.Err, firstW.Trace, refErrS)
+	return v
+}
